@@ -105,6 +105,9 @@ using namespace uncrustify;
 // Global data
 cp_data_t cpd;
 
+//! the language flags given with '-l', valid while cpd.lang_forced is set
+static size_t forced_lang_flags = 0;
+
 
 /**
  * Find the language for the file extension
@@ -626,7 +629,8 @@ int main(int argc, char *argv[])
       }
       else
       {
-         cpd.lang_forced = true;
+         cpd.lang_forced   = true;
+         forced_lang_flags = cpd.lang_flags;
       }
    }
    // Get the source file name
@@ -1533,6 +1537,12 @@ static void do_source_file(const char *filename_in,
       || cpd.lang_flags == 0)
    {
       cpd.lang_flags = language_flags_from_filename(filename_in);
+   }
+   else
+   {
+      // the Objective-C probe of the tokenizer may have widened the flags
+      // while parsing the previous file: every file starts with the flags of '-l'
+      cpd.lang_flags = forced_lang_flags;
    }
 
    // Try to read in the source file
